@@ -95,6 +95,18 @@ func (w *World) declareForged(p int, e *entry.Entry) string {
 	return fmt.Sprintf("e%d", n)
 }
 
+// firstServedEntry returns the first declared entry whose block some peer still holds.
+func (w *World) firstServedEntry() ipfslog.Entry {
+	for _, e := range w.entries {
+		for p := range w.peers {
+			if w.blocks.Has(p, e.GetHash()) {
+				return e
+			}
+		}
+	}
+	return nil
+}
+
 func (w *World) stores0() iface.Store {
 	for _, s := range w.stores {
 		return s
@@ -185,12 +197,14 @@ func (w *World) forge(ctx context.Context, toks []string) {
 		e.SetClock(entry.NewLamportClock(victim.identity.PublicKey, e.GetClock().GetTime()))
 	case "mut-next":
 		e.SetNext([]cid.Cid{})
-		if len(next) == 0 && len(w.entries) > 0 {
-			e.SetNext([]cid.Cid{w.entries[0].GetHash()})
+		if first := w.firstServedEntry(); len(next) == 0 && first != nil {
+			e.SetNext([]cid.Cid{first.GetHash()})
 		}
 	case "mut-refs":
-		if len(w.entries) > 0 {
-			e.SetRefs([]cid.Cid{w.entries[0].GetHash()})
+		// (an entry whose block was dropped is never referenced: a writer naming a block nobody serves
+		// stalls the fetch of its own entry, which is outside what the properties quantify over)
+		if first := w.firstServedEntry(); first != nil {
+			e.SetRefs([]cid.Cid{first.GetHash()})
 		} else {
 			// (a nil refs list would be a non-canonical encoding, which Sync re-encodes differently: not a
 			// single-field mutation of the wire form)
